@@ -34,12 +34,15 @@ Section Checker.
   (** Resolved exactly when no listed path is conflicted. *)
   Definition flag_ok (merged : list tree) (vals : list (list N * list oval)) : bool :=
     Bool.eqb (is_single merged) (forallb (fun pv => is_single (snd pv)) vals).
-  (** MergedTree::resolve: the final simplification keeps every tree's net count, never
-      adds terms, and leaves a resolved result alone. *)
+  (** MergedTree::resolve: a resolved merge is returned as it is; otherwise the result is
+      a fixpoint of both steps of the loop (nothing left to cancel, nothing left to merge)
+      and has no more sides than the merge. *)
   Definition final_ok (merged result : list tree) : bool :=
-    den_eqb tree_eqb result merged && (length result <=? length merged)%nat
-    && Nat.odd (length result)
-    && (negb (is_single merged) || trees_eqb result merged).
+    if is_single merged then trees_eqb result merged
+    else (length result <=? length merged)%nat && Nat.odd (length result)
+         && (is_single result
+             || (trees_eqb (simplify tree_eqb result) result
+                 && trees_eqb (merge_trees accept content_merge result) result)).
   (** merge [A; B; B] = A and merge [B; B; A] = A, as trees. *)
   Definition identity_ok (inputs : list (list tree)) (result : list tree) : bool :=
     match inputs with
@@ -61,14 +64,14 @@ Definition okb (c : case) : bool :=
       let result := map (dec (c_tab c)) r in
       values_ok (c_accept c) (oracle_of (c_oracle c)) ts (dec_values c)
       && flag_ok merged (dec_values c)
-      && final_ok merged result
+      && final_ok (c_accept c) (oracle_of (c_oracle c)) merged result
       && identity_ok (dec_inputs c) result
   | _, _ => false
   end.
 
 (** Correspondence, stage by stage (the detail number names the first stage that differs):
-    1 merge_no_resolve, 2 merge_trees, 3 resolve, 4 path_value, 5 backends disagree /
-    panic. Each stage is run on the implementation's output of the previous one. *)
+    1 merge_no_resolve, 2 merge_trees, 3 resolve (the whole loop), 4 path_value, 5 backends
+    disagree. Stages 2-4 start from the implementation's merge_no_resolve output. *)
 Definition check_case (c : case) : N :=
   let tab := c_tab c in
   let acc := c_accept c in
@@ -79,11 +82,9 @@ Definition check_case (c : case) : N :=
             | Some m => trees_eqb (merge_trees acc orc ts) (map (dec tab) m)
             | None => false
             end in
-  let s3 := match c_merged c, c_result c with
-            | Some m, Some r =>
-                let mt := map (dec tab) m in
-                trees_eqb (if is_single mt then mt else simplify tree_eqb mt) (map (dec tab) r)
-            | _, _ => false
+  let s3 := match c_result c with
+            | Some r => trees_eqb (resolve acc orc ts) (map (dec tab) r)
+            | None => false
             end in
   let s4 := match c_merged c with
             | Some m =>
